@@ -2,6 +2,8 @@
 design-level model checking of StunClient*.tla + trace validation of recorded executions of
 the real StunClient against the property monitors (ClientMon.tla via TraceClient.tla)."""
 import json
+import re
+import shutil
 import os
 import time
 
@@ -256,6 +258,47 @@ def record(bindir, wd, profile, seed, traces, steps):
     return out, stats
 
 
+def repo_tests(wd):
+    """Executions of the repository's own StunClient integration tests (the files under
+    /repo/stun-agent/tests, included unedited and compiled against the recording stand-in
+    harness/shim) as traces for TraceClient.tla. Returns (recdir, stats)."""
+    out = os.path.join(wd, "rec-repotests")
+    raw = os.path.join(out, "raw")
+    shutil.rmtree(out, ignore_errors=True)
+    os.makedirs(raw)
+    rc, o = sh("cargo test --offline -p rustun-verif-repotests --no-fail-fast", cwd=HARNESS,
+               env={"CARGO_NET_OFFLINE": "true", "VERIF_REPOTEST_OUT": raw}, timeout=3000, check=False)
+    passed = sum(int(m) for m in re.findall(r"test result: \w+\. (\d+) passed", o))
+    failed = sum(int(m) for m in re.findall(r"test result: \w+\. \d+ passed; (\d+) failed", o))
+    if passed + failed == 0:
+        raise ToolError("the repository's integration tests did not build against the stand-in:\n" + o[-4000:])
+    if failed:
+        log("[repo-tests] %d of the repository's tests fail against this tree (not a property verdict; "
+            "their traces are validated all the same)" % failed)
+    tests, cuts, tr, nlines = {}, [], -1, 0
+    with open(os.path.join(out, "trace.ndjson"), "w") as f:
+        for name in sorted(os.listdir(raw)):
+            for line in open(os.path.join(raw, name)):
+                o_ = json.loads(line)
+                if o_["op"] == "cut":
+                    cuts.append({"test": o_["test"], "why": o_["why"]})
+                    continue
+                if o_["op"] == "reset":
+                    tr += 1
+                    tests[tr] = o_.get("test", name)
+                    o_.pop("cfg_full", None)
+                    o_.pop("test", None)
+                o_["tr"] = tr
+                f.write(json.dumps(o_) + "\n")
+                nlines += 1
+    json.dump({"tests": tests}, open(os.path.join(out, "tests.json"), "w"))
+    if nlines == 0:
+        raise ToolError("the repository's tests recorded no call")
+    return out, {"source": "repository's own integration tests (stun-agent/tests/*.rs) through harness/shim",
+                 "tests_passed": passed, "tests_failed": failed, "clients_recorded": tr + 1,
+                 "calls_recorded": nlines - (tr + 1), "recordings_cut_short": cuts}
+
+
 def replay_steps(bindir, wd, steps_file):
     out = os.path.join(wd, "replay")
     sh("%s/drive-client replay --steps %s --out %s" % (bindir, steps_file, out), timeout=600)
@@ -305,6 +348,16 @@ def split_traces(path):
 
 def make_replay(prop, seed, recdir, tr, line_in_trace, obs, note=""):
     os.makedirs(REPLAYS, exist_ok=True)
+    tj = os.path.join(recdir, "tests.json")
+    if os.path.exists(tj):
+        test = json.load(open(tj))["tests"].get(str(tr), "?")
+        rep = {"property": prop, "kind": "repo-test", "test": test, "call_index": line_in_trace,
+               "failing_observation": obs,
+               "note": "execution of the repository's own test %s; re-run: ./check %s --replay <this file>" % (test, prop)}
+        path = os.path.join(REPLAYS, "%s-%d-%s.json" % (prop, seed, digest(["repo-test", test, line_in_trace])))
+        with open(path, "w") as f:
+            json.dump(rep, f, indent=1)
+        return path
     with open(os.path.join(recdir, "steps.ndjson")) as f:
         for l in f:
             s = json.loads(l)
@@ -364,7 +417,12 @@ def run(prop, tier, seed, replay=None, extra_cov=None):
     violations = []
     known_hits = []
     mbt_stats = []
-    if replay:
+    repo_stats = {}
+    if replay and json.load(open(replay)).get("kind") == "repo-test":
+        recs = [repo_tests(wd)]
+        states = trans = 1
+        minfo = []
+    elif replay:
         rep = json.load(open(replay))
         sf = os.path.join(wd, "replay-steps.ndjson")
         with open(sf, "w") as f:
@@ -392,6 +450,9 @@ def run(prop, tier, seed, replay=None, extra_cov=None):
                 out, st = mbt_lt(name, tier, seed, wd, bindir)
                 recs.append((out, st))
                 mbt_stats.append(st)
+        rt = repo_tests(wd)
+        recs.append(rt)
+        repo_stats = rt[1]
     total_traces = total_lines = 0
     distinct = set()
     samples = []
@@ -450,6 +511,7 @@ def run(prop, tier, seed, replay=None, extra_cov=None):
             "plan": [{"profile": p, "traces": n, "max_steps": s} for p, n, s in PLANS[prop][tier]],
             "known_findings_hit": sorted(set(known_hits)),
             "spec_to_code_replays": mbt_stats,
+            "repository_tests_validated": repo_stats,
             "exhaustive": False,
             **(extra_cov or {}),
         }, time.time() - t0, len(violations),
